@@ -47,6 +47,7 @@ impl<A: Float> AffFuncG<A> {
 //@fn src/linalg/affine.rs | impl<A: Float> AffFuncG<A> | identity
 //@spec
     ensures r.ok(), r.mat.ncols() == dim, r.mat.nrows() == dim,
+        r.mat.m() == eye(dim as int), r.bias.v() == vconst(dim as int, 0real),
         forall|x: V| x.len() == dim ==> #[trigger] r.ap(x) =~= x,
 //@hint start
         proof { assert forall|x: V| x.len() == dim implies #[trigger] vadd(mv(eye(dim as int), x), vconst(dim as int, 0real)) =~= x by { lemma_mv_eye(dim as int, x); } }
@@ -61,6 +62,7 @@ impl<A: Float> AffFuncG<A> {
 //@fn src/linalg/affine.rs | impl<A: Float> AffFuncG<A> | constant
 //@spec
     ensures r.ok(), r.mat.ncols() == dim, r.mat.nrows() == 1,
+        r.mat.m() == mconst(1, dim as int, 0real), r.bias.v() =~= seq![value.rv()],
         forall|x: V| x.len() == dim ==> #[trigger] r.ap(x) =~= seq![value.rv()],
 //@hint start
         proof { assert forall|x: V| x.len() == dim implies #[trigger] mv(mconst(1, dim as int, 0real), x) =~= vconst(1, 0real) by { lemma_mv_zero(1, dim as int, x); } }
@@ -69,6 +71,7 @@ impl<A: Float> AffFuncG<A> {
 //@spec
     requires index < dim
     ensures r.ok(), r.mat.ncols() == dim, r.mat.nrows() == 1,
+        r.mat.m() == mset(mconst(1, dim as int, 0real), 0, index as int, 1real), r.bias.v() == vconst(1, 0real),
         forall|x: V| x.len() == dim ==> #[trigger] r.ap(x) =~= seq![x[index as int]],
 //@hint start
         proof {
@@ -83,6 +86,7 @@ impl<A: Float> AffFuncG<A> {
 //@spec
     requires index < dim
     ensures r.ok(), r.mat.ncols() == dim, r.mat.nrows() == dim,
+        r.mat.m() == mset(eye(dim as int), index as int, index as int, 0real), r.bias.v() == vconst(dim as int, 0real),
         forall|x: V| x.len() == dim ==> #[trigger] r.ap(x) =~= x.update(index as int, 0real),
 //@hint start
         proof {
